@@ -181,7 +181,7 @@ def widen_twin(call):
     return call
 
 DOMAIN_RULES = [
-  R("ppl_delete_@CLASS@", r"ppl_delete_{D}", VOID, "#0.tdel();", {0: "Obj<%(T)s>:DEL"}, post="if (R.rc == 0) #0.cgone();"),
+  R("ppl_delete_@CLASS@", r"ppl_delete_{D}", VOID, "#0.tdel();", {0: "Obj<%(T)s>:DEL"}, post="if (R.rc == 0) { #0.cgone(); if (G.mode == MODE_MAIN) R.expect(R.live_after < R.live_before, \"life:not-released\", \"no ::operator new block was released by the delete function\", \"the object is released\"); }"),
   R("ppl_new_@TOPOLOGY@@CLASS@_from_space_dimension", r"ppl_new_(?P<TOP>C_|NNC_)?{D}_from_space_dimension", VOID,
     "#0.tnew(new %(TT)s($1, $2 != 0 ? EMPTY : UNIVERSE));", {1: "DimSmall", 2: "Scalar:0,1,5"}),
   R("ppl_new_@TOPOLOGY@@CLASS@_from_@FRIEND@", r"ppl_new_(?P<TOP>C_|NNC_)?{D}_from_(?P<F>{FRIENDS})", VOID,
@@ -336,12 +336,69 @@ def domain_env(D, classes, m):
                           " else { std::pair<NNC_Polyhedron, %s > r = linear_partition(static_cast<const NNC_Polyhedron&>($0), static_cast<const NNC_Polyhedron&>($1)); R.s1 = dump(r.first); R.s2 = dump(r.second); }") % (PSN, PSN)
     else:
         env["LP_TWIN"] = "std::pair<%s, %s > r = linear_partition($0, $1); R.s1 = dump(r.first); R.s2 = dump(r.second);" % (T, PSN)
+    # a correct implementation hands two new objects over to the caller (released by the stub after the comparison)
+    env["LP_TWIN"] = "R.extra_new = 1 << 20; " + env["LP_TWIN"]
     env["LP_COMPARE"] = ("%s* pi = static_cast<%s*>(#2.slot); %s* pr = static_cast<%s*>(#3.slot); "
                          "R.expect(pi && pr && dump(*pi) == R.s1 && dump(*pr) == R.s2, \"capi:result-differs\", \"partition differs\", \"result of linear_partition\"); delete pi; delete pr;") % (T, T, PSN, PSN)
     env["RANKPH"] = "NNC_Polyhedron" if g.get("ID") == "PR" else "C_Polyhedron"
     return env
 
 from capi_rules_fixed import FIXED_RULES, EXTRA_DOMAIN_RULES, MANUAL, fixed_env  # noqa: E402
+
+
+# ------------------------------------------------------------------------------------------------
+# life-cycle sequences (mode life): per domain, every available creator x every available simple operation x delete
+# ------------------------------------------------------------------------------------------------
+def life_stub(D, classes, names, idx):
+    T = cpp_of(D, classes)
+    tops = ["C_", "NNC_"] if D == "Polyhedron" else [""]
+    h = "ppl_%s_t" % D
+    ch = "ppl_const_%s_t" % D
+    L = ["// life cycles of %s" % D, "static void L%d(Run& R) {" % idx, "  LifeSeq L(R);",
+         "  Constraint_System cs2; cs2.insert(vA() == 1); cs2.insert(vB() == 2); Constraint con0 = con_of(0); Linear_Expression le0 = le_of(5); Coefficient one(1);",
+         "  static FILE* devnull = fopen(\"/dev/null\", \"w\");"]
+    n_c = 0
+    for top in tops:
+        TT = (top + "Polyhedron") if top else T
+        f = "ppl_new_%s%s_from_space_dimension" % (top, D)
+        if f in names:
+            L.append('  L.creator("%s", [&](void** p) { return %s((%s*)p, 2, 0); });' % (f, f, h)); n_c += 1
+        f = "ppl_new_%s%s_from_Constraint_System" % (top, D)
+        if f in names:
+            L.append('  L.creator("%s", [&](void** p) { return %s((%s*)p, (ppl_const_Constraint_System_t)&cs2); });' % (f, f, h)); n_c += 1
+        f = "ppl_new_%s%s_recycle_Constraint_System" % (top, D)
+        if f in names:
+            L.append('  L.creator("%s", [&](void** p) { Constraint_System tmp(cs2); return %s((%s*)p, (ppl_Constraint_System_t)&tmp); });' % (f, f, h)); n_c += 1
+        f = "ppl_new_%s%s_from_%s%s" % (top, D, top, D)
+        if f in names:
+            L.append('  static %s* src%s = Menu<%s >::make(0);' % (TT, top, TT))
+            L.append('  L.creator("%s", [&](void** p) { return %s((%s*)p, (%s)src%s); });' % (f, f, h, ch, top)); n_c += 1
+    ops = [
+        ("OK", "(%s)x" % ch), ("is_empty", "(%s)x" % ch), ("is_universe", "(%s)x" % ch), ("contains_integer_point", "(%s)x" % ch),
+        ("add_constraint", "(%s)x, (ppl_const_Constraint_t)&con0" % h), ("refine_with_constraint", "(%s)x, (ppl_const_Constraint_t)&con0" % h),
+        ("add_constraints", "(%s)x, (ppl_const_Constraint_System_t)&cs2" % h),
+        ("intersection_assign", "(%s)x, (%s)x" % (h, ch)), ("upper_bound_assign", "(%s)x, (%s)x" % (h, ch)), ("difference_assign", "(%s)x, (%s)x" % (h, ch)),
+        ("add_space_dimensions_and_embed", "(%s)x, 1" % h), ("add_space_dimensions_and_project", "(%s)x, 1" % h), ("remove_higher_space_dimensions", "(%s)x, 1" % h),
+        ("topological_closure_assign", "(%s)x" % h), ("unconstrain_space_dimension", "(%s)x, 0" % h),
+        ("affine_image", "(%s)x, 0, (ppl_const_Linear_Expression_t)&le0, (ppl_const_Coefficient_t)&one" % h),
+        ("ascii_dump", "(%s)x, devnull" % ch), ("pairwise_reduce", "(%s)x" % h), ("omega_reduce", "(%s)x" % h),
+    ]
+    n_o = 0
+    for (m, a) in ops:
+        f = "ppl_%s_%s" % (D, m)
+        if f in names:
+            L.append('  L.op("%s", [&](void* x) { return %s(%s); });' % (f, f, a)); n_o += 1
+    for m in ("space_dimension", "affine_dimension"):
+        f = "ppl_%s_%s" % (D, m)
+        if f in names:
+            L.append('  L.op("%s", [&](void* x) { ppl_dimension_type d; return %s((%s)x, &d); });' % (f, f, ch)); n_o += 1
+    for m in ("total_memory_in_bytes",):
+        f = "ppl_%s_%s" % (D, m)
+        if f in names:
+            L.append('  L.op("%s", [&](void* x) { size_t d; return %s((%s)x, &d); });' % (f, f, ch)); n_o += 1
+    L.append("  L.run((DelFn)ppl_delete_%s);" % D)
+    L.append("}")
+    return "\n".join(L), n_c * n_o
 
 # ------------------------------------------------------------------------------------------------
 # emission
@@ -466,11 +523,19 @@ def emit(protos, classes, out, write_if_changed):
         idx += 1
         n_cov += 1
     stub_files = []
+    n_life = 0
+    all_names = set(p["name"] for p in protos)
     all_groups = sorted(set(list(groups.keys()) + ["fixed"]))
     for gname in all_groups:
         body = ['// generated by gen/capi_gen.py -- do not edit', '#include "harness/c20_rt.hh"', '#include "harness/c20_rt2.hh"',
                 "using namespace c20;", "namespace {"]
         body += groups.get(gname, [])
+        life_entry = ""
+        if gname in names and ("ppl_delete_%s" % gname) in all_names:
+            ltxt, nseq = life_stub(gname, classes, all_names, idx + 100000 + len(stub_files))
+            body.append(ltxt)
+            life_entry = 'const Entry LIFE[] = {{"life:%s", "handle life cycle of @CLASS@", "%s", L%d}};\nLifeRegistrar lreg(LIFE, 1);' % (gname, gname, idx + 100000 + len(stub_files))
+            n_life += nseq
         body.append("const Entry ENTRIES[] = {")
         for (name, label, dom, i) in table.get(gname, []):
             body.append('  {"%s", "%s", "%s", S%d},' % (name, label, dom, i))
@@ -483,6 +548,8 @@ def emit(protos, classes, out, write_if_changed):
         mn = manual if gname == "fixed" else []
         body.append("const char* const MANUALS[] = {" + "".join(json.dumps(u) + ", " for u in mn) + "0};")
         body.append("Registrar reg(ENTRIES, %d, UNMATCHED, %d, UNCOVERED, %d, MANUALS, %d);" % (len(table.get(gname, [])), len(um), len(uc), len(mn)))
+        if life_entry:
+            body.append(life_entry)
         body.append("}")
         fn = "stubs_%s.cc" % gname
         write_if_changed(os.path.join(out, fn), "\n".join(body) + "\n")
@@ -491,4 +558,4 @@ def emit(protos, classes, out, write_if_changed):
         if re.match(r"stubs_.*\.cc$", f) and f not in stub_files:
             os.remove(os.path.join(out, f))
     write_if_changed(os.path.join(out, "unmatched.txt"), "\n".join(unmatched) + "\n")
-    return {"stub_files": stub_files, "n_covered": n_cov + len(manual), "n_manual": len(manual), "n_unmatched": len(unmatched), "n_uncovered_listed": len(uncovered)}
+    return {"stub_files": stub_files, "n_covered": n_cov + len(manual), "n_manual": len(manual), "n_life_sequences": n_life, "n_unmatched": len(unmatched), "n_uncovered_listed": len(uncovered)}
